@@ -758,7 +758,7 @@ def run(ctx):
     corpus = [{"history": c["history"], "probe": c["probe"]} for c in vlib.corpus_cases(ID)]
     if corpus:
         evaluate(ctx, corpus, "corpus")
-    n = 200 if ctx.tier == "quick" else 2400
+    n = 160 if ctx.tier == "quick" else 2400
     chunk = 160
     done = 0
     while done < n:
